@@ -313,6 +313,29 @@ def check_c10(pid, tier, seed, rep):
                 rep.violation("name-%s-%s" % (r["name"], band.replace("/", "_")), dict(package_dir=os.path.join(N["srcdir"], r["dir"]), file=band, declared=names, generated=got,
                                                                                    how="cd <package_dir> && kessoku <both files in one invocation>"),
                               "%s %s: generated functions %s, declared injectors %s" % (r["name"], band, got, names))
+    # directed packages with a prescribed parameter list (Sets of other packages: known finding KF-C10-1)
+    open_ids = {k["id"] for k in vlib.known_findings() if k["status"] == "open" and k["property"] == pid}
+    for r in N["records"]:
+        for band, funcs in (r["meta"].get("expect_params") or {}).items():
+            txt = (r.get("band") or {}).get(band)
+            if r["gen_rc"] != 0 or txt is None:
+                if r["gen_rc"] not in (0, 1):
+                    nviol += 1
+                    rep.violation("params-%s" % r["name"], dict(package_dir=os.path.join(N["srcdir"], r["dir"]), exit=r["gen_rc"], stderr=r["gen_err"]),
+                                  "%s: the generator neither accepted nor refused the declaration (exit %s)" % (r["name"], r["gen_rc"]))
+                continue
+            for fn, want in funcs.items():
+                m = re.search(r"^func %s\((.*?)\) " % re.escape(fn), txt, re.M)
+                got = [x.split(" ", 1)[1] for x in m.group(1).split(", ")] if m and m.group(1) else []
+                if m and got == want:
+                    continue
+                known = (r["meta"].get("known_params") or {}).get(band, {}).get(fn)
+                if m and known is not None and got == known and r["expect"] in open_ids:
+                    rep.known_finding(r["expect"], "%s %s: parameters %s, the declaration prescribes %s (the Set of another package is dropped with a warning)" % (r["name"], fn, got, want))
+                else:
+                    nviol += 1
+                    rep.violation("params-%s-%s" % (r["name"], fn), dict(package_dir=os.path.join(N["srcdir"], r["dir"]), file=band, function=fn, parameters=got, prescribed=want, generated=txt[:3000]),
+                                  "%s %s: parameters %s, expected exactly the unsupplied needed types %s" % (r["name"], fn, got if m else "(no such function)", want))
     if bad and not nviol:
         r, why = bad[0]
         rep.violation("corrS-%d" % r["id"], dict(correspondence="signature of coq/CorrS.v:usig differs from the generated function",
